@@ -64,6 +64,9 @@ func (s *State) evalIndexAssigment(which ast.Node, index, value object.Object) o
 	// store values, not the (loop) registers they may come from.
 	index = object.CopyRegister(index)
 	value = object.CopyRegister(value)
+	if index.Type() == object.ERROR {
+		return index // m[1/0] = 3 is an error, not an entry under an error key.
+	}
 	id, _ := which.(*ast.Identifier)
 	val, ok := s.env.Get(id.Literal())
 	if !ok {
@@ -388,11 +391,17 @@ func (s *State) evalMapLiteral(node *ast.MapLiteral) object.Object {
 	for _, keyNode := range node.Order {
 		valueNode := node.Pairs[keyNode]
 		key := object.CopyRegister(s.Eval(keyNode)) // store the value, not the (loop) register.
+		if key.Type() == object.ERROR {
+			return key // an error in a key or a value is the error of the literal, not an entry of the map.
+		}
 		if !object.Equals(key, key) {
 			log.Warnf("key %s is not hashable", key.Inspect())
 			return s.NewError("key " + key.Inspect() + " is not hashable")
 		}
 		value := object.CopyRegister(s.Eval(valueNode))
+		if value.Type() == object.ERROR {
+			return value
+		}
 		result = result.Set(key, value)
 	}
 	return result
